@@ -40,19 +40,21 @@ ValueOf(block, key) ==
        ELSE LET l == hits[Len(hits)] IN <<TrimU(SubSeq(l, FirstPos(l, EQ) + 1, Len(l)))>>
 
 \* one block -> <<"ok", record>> | <<"err">>
-ToIndex(block) ==
-    LET name == ValueOf(block, KeyNames[1])
-        loc  == ValueOf(block, KeyNames[2])
-        deps == IF ValueOf(block, KeyNames[3]) = <<>> THEN <<>> ELSE Fields(ValueOf(block, KeyNames[3])[1], UniWs)
-        dr   == [i \in 1..Len(deps) |-> DependNew(deps[i])]
-        lr   == IF loc = <<>> THEN [ok |-> "T"] ELSE PkgPathNew(loc[1])
-        list(k) == IF ValueOf(block, KeyNames[k]) = <<>> THEN <<>> ELSE Fields(ValueOf(block, KeyNames[k])[1], UniWs)
+\* (name, loc, deps, dr are computed once: ToIndexV gets them as values)
+ToIndexV(block, name, loc, deps, dr) ==
+    LET lr   == IF loc = <<>> THEN [ok |-> "T"] ELSE PkgPathNew(loc[1])
+        list(k) == LET v == ValueOf(block, KeyNames[k]) IN IF v = <<>> THEN <<>> ELSE Fields(v[1], UniWs)
     IN IF name = <<>> \/ lr.ok = "F" \/ (\E i \in 1..Len(dr) : dr[i].ok = "F") THEN <<"err">>
        ELSE <<"ok", [pkgname |-> name[1], base |-> PkgBase(name[1]), version |-> PkgVer(name[1]),
                      location |-> IF loc = <<>> THEN <<>> ELSE <<[short |-> lr.short, full |-> lr.full]>>,
-                     all_depends |-> [i \in 1..Len(dr) |-> [pattern |-> SplitOn(deps[i], COLON)[1], short |-> dr[i].short, full |-> dr[i].full]],
+                     all_depends |-> [i \in 1..Len(dr) |-> [pattern |-> Nth(SplitOn(deps[i], COLON), 1), short |-> dr[i].short, full |-> dr[i].full]],
                      scalars |-> [j \in 1..10 |-> ValueOf(block, KeyNames[ScalarKeys[j]])],
                      scan_depends |-> list(13), multi_version |-> list(15)]>>
+ToIndex(block0) ==
+    Let1(block0, LAMBDA block :
+      Let2(ValueOf(block, KeyNames[1]), ValueOf(block, KeyNames[2]), LAMBDA name, loc :
+        Let1(LET v == ValueOf(block, KeyNames[3]) IN IF v = <<>> THEN <<>> ELSE Fields(v[1], UniWs), LAMBDA deps :
+          Let1([i \in 1..Len(deps) |-> DependNew(deps[i])], LAMBDA dr : ToIndexV(block, name, loc, deps, dr)))))
 \* are all outcomes of this block fixed by the properties (glob subset; no blank before '=')?
 BlockJudged(block) ==
     /\ \A l \in RangeOf(block) : LET i == FirstPos(l, EQ) IN i = 0 \/ TrimU(SubSeq(l, 1, i - 1)) = SubSeq(l, 1, i - 1)
@@ -77,11 +79,17 @@ StepEof(s) == IF s.st # "reading" THEN s
 
 \* the property, declaratively: blocks are the maximal runs of (trimmed, non-empty) lines that
 \* start at a "PKGNAME=" line (the first block starts at the first line)
-RECURSIVE BlocksOf(_, _, _)
-BlocksOf(ls, i, cur) ==
+\* state <<finished blocks, current block>>
+BlocksOf(ls, i0, cur0) ==
+    LET r == FoldL(LAMBDA st, l : IF StartsWith(l, LitPkgnameEq) /\ st[2] # <<>> THEN <<Append(st[1], st[2]), <<l>>>>
+                                  ELSE <<st[1], Append(st[2], l)>>,
+                   <<<<>>, cur0>>, SubSeq(ls, i0, Len(ls)))
+    IN IF r[2] = <<>> THEN r[1] ELSE Append(r[1], r[2])
+RECURSIVE BlocksOfRef(_, _, _)
+BlocksOfRef(ls, i, cur) ==
     IF i > Len(ls) THEN (IF cur = <<>> THEN <<>> ELSE <<cur>>)
-    ELSE IF StartsWith(ls[i], LitPkgnameEq) /\ cur # <<>> THEN <<cur>> \o BlocksOf(ls, i + 1, <<ls[i]>>)
-    ELSE BlocksOf(ls, i + 1, Append(cur, ls[i]))
+    ELSE IF StartsWith(ls[i], LitPkgnameEq) /\ cur # <<>> THEN <<cur>> \o BlocksOfRef(ls, i + 1, <<ls[i]>>)
+    ELSE BlocksOfRef(ls, i + 1, Append(cur, ls[i]))
 ReadRef(rawlines) ==
     LET ls == SelectSeq([i \in 1..Len(rawlines) |-> TrimU(rawlines[i])], LAMBDA l : l # <<>>)
         bs == BlocksOf(ls, 1, <<>>)
